@@ -7,7 +7,7 @@ from spec import step_model as M
 
 PROPERTY = "C07"
 BOUNDS = {
-    "quick": "inductive step: two known nodes a,b (ids sym [10,99], distinct), sleeping flags symbolic, parked commands for keys (node,child,type) = (a,1,2),(a,1,3),(a,2,2),(b,1,2) each present or absent (symbolic; 64 pre-states incl. parked-but-not-sleeping); one event of 20 kinds: send set to a|b x (child,type) in {(1,2),(1,3),(2,2)} x buffering flag, receive from a|b: heartbeat response (wake in 2.0/2.1), pre-sleep notification (wake in 2.2), battery report, set; after the step writes (flush order free), outcome, registry and the complete buffer are compared with the model; 5 versions (1.x: sleeping flag set directly, no wake signal exists). Plus 2-event histories from an empty buffer (2.0, 2.2)",
+    "quick": "inductive step: two known nodes a,b (ids sym [10,99], distinct), sleeping flags symbolic, parked commands for keys (node,child,type) = (a,1,2),(a,1,3),(a,2,2),(b,1,2) each present or absent (symbolic; 64 pre-states incl. parked-but-not-sleeping); one event of 20 kinds: send set to a|b x (child,type) in {(1,2),(1,3),(2,2)} x buffering flag, receive from a|b: heartbeat response (wake in 2.0/2.1), pre-sleep notification (wake in 2.2), battery report, set; after the step writes (flush order free), outcome, registry and the complete buffer are compared with the model; 5 versions (1.x: sleeping flag set directly, no wake signal exists). one event may also be a version reply from the gateway (buffer must be untouched). Plus 2-event histories from an empty buffer (2.0, 2.2), and 'switch' histories: commands parked while the version is unknown, then the version report (protocol switch 1.4 -> 2.x), then a wake",
     "thorough": "as quick plus 3-event histories on 2.0, 2.1, 2.2 and 2-event histories on 1.4/1.5",
 }
 REALISED = []
@@ -24,11 +24,13 @@ def partitions(tier):
     q = tier == "quick"
     parts = []
     for v in VERSIONS:
-        for g in range(5):
+        for g in range(6):
             parts.append({"name": "step-%s-g%d" % (v, g), "fn": "sym_step", "version": v, "group": g, "budget": 600 if q else 3000, "cost": 5})
+        if v in ("2.0", "2.1", "2.2"):
+            parts.append({"name": "switch-%s" % v, "fn": "sym_switch", "version": v, "budget": 600 if q else 2000, "cost": 4})
         if (q and v in ("2.0", "2.2")) or not q:
             steps = 2 if (q or v in ("1.4", "1.5")) else 3
-            for first in range(5):
+            for first in range(6):
                 parts.append({"name": "hist-%s-f%d" % (v, first), "fn": "sym_hist", "version": v, "steps": steps, "first": first,
                               "budget": 600 if q else 3600, "cost": 6 if steps == 2 else 20})
     return parts
@@ -86,7 +88,7 @@ def do_event(w, inp, a, b, ev, tagacc, tag=""):
         tagacc.append("written-now" if mw else "parked")
     else:
         line = {"hb": (n, 255, 3, 0, 22, "10"), "presleep": (n, 255, 3, 0, 32, ""), "battery": (n, 255, 3, 0, 0, "55"),
-                "set": (n, 1, 1, 0, 2, "x")}[kind]
+                "set": (n, 1, 1, 0, 2, "x"), "version": (0, 255, 3, 0, 2, child or w.version)}[kind]
         had = 0
         for key, _p in w.st.parked:
             if key[0] == n:
@@ -117,8 +119,9 @@ def _two_nodes(inp, w):
 
 
 EVENTS = ([("send", who, ct, buf, None) for who in (0, 1) for ct in ((1, 2), (1, 3), (2, 2)) for buf in (True, False)]
-          + [(k, who, None, None, None) for k in ("hb", "presleep", "battery", "set") for who in (0, 1)])
-assert len(EVENTS) == 20
+          + [(k, who, None, None, None) for k in ("hb", "presleep", "battery", "set") for who in (0, 1)]
+          + [("version", 0, None, None, None)] * 4)
+assert len(EVENTS) == 24
 
 
 def sym_step(inp, part):
@@ -147,6 +150,33 @@ def sym_step(inp, part):
     tags = []
     do_event(w, inp, a, b, ev, tags)
     return [tags[0], ev[0]]
+
+
+def sym_switch(inp, part):
+    """Commands parked while the gateway's version is still unknown (sleeping flags restored from
+    persistence) survive the version report and are released at the node's wake under the new protocol."""
+    w = World(inp, part["version"], known=False)
+    a, b = _two_nodes(inp, w)
+    ids = {"a": a, "b": b}
+    for nid in (a, b):
+        s = inp.bool("sleep_%d" % (nid == a))
+        w.gw.nodes[nid].sleeping = s
+        M.aget(w.st.nodes, nid).sleeping = s
+    tags = []
+    for i, (who, child, vtype) in enumerate(KEYS):
+        if i in (0, 3) and inp.bool("send%d" % i):
+            do_event(w, inp, a, b, ("send", 0 if who == "a" else 1, (child, vtype), True, "pre%d" % i), tags)
+    via_presentation = inp.bool("via_gateway_presentation")
+    text = [part["version"], part["version"] + ".1"][inp.pick("vtext", 2)]
+    line = (0, 255, 0, 0, 18, text) if via_presentation else (0, 255, 3, 0, 2, text)
+    k, val, writes = w.feed(M.line(*line))
+    out, mw = M.step(w.st, *line)
+    compare_outcome(k, val, out, *line)
+    compare_multiset(writes, mw, "switch-writes")
+    compare_buffer(w, "buffer-after-version-report")
+    wake = "presleep" if part["version"] == "2.2" else "hb"
+    do_event(w, inp, a, b, (wake, inp.pick("wake_who", 2), None, None, None), tags)
+    return ["history-ok", tags]
 
 
 def sym_hist(inp, part):
